@@ -92,3 +92,45 @@ Example c08_reach_example :
   exists s, Reach 0 [[OSet]; [OGet; OFin]; [OWait 2]] s /\
             existsb parked (threads s) = true /\ existsb wake_pending (threads s) = true.
 Proof. exact fu_reach_example. Qed.
+
+(* ---- publication ("callbacks and get() observe the value"): the release/acquire half on the explicit view
+   machine of coq/WM/RA.v, with the memory orders regenerated from future.hpp.  Producer = set_value:
+   construct the value (plain writes), then publish with an exchange (futex word / list head).  Consumer = get()
+   / wait_slow / on_finish: acquire load (or acquire RMW), then read the value.  For EVERY execution of the view
+   machine (any schedule, any message a relaxed/acquire load may legally read): a consumer that saw the
+   published word reads the constructed value and there is no data race on it. *)
+Require Import Verif.Base.Atomics Verif.WM.RA Verif.WM.RAProofs Verif.WM.RALitmus Verif.WM.RALitmusProofs.
+Definition order_of (tbl : list (akind * morder * morder)) (n : nat) : morder :=
+  match nth_error tbl n with Some (_, o, _) => o | None => Relaxed end.
+
+(* futex word: exchange(READY_MASK) in set_value  vs  the acquire load of get() *)
+Theorem c08_publication_get : forall sch,
+  RA.final (RA.run (RA.init (mp_xchg (order_of sites_set_value 0) (order_of sites_get 0))) sch) = true ->
+  mp_bad (RA.result (RA.run (RA.init (mp_xchg (order_of sites_set_value 0) (order_of sites_get 0))) sch)) = false.
+Proof. apply mp_xchg_all_executions. vm_compute. reflexivity. Qed.
+Print Assumptions c08_publication_get.
+
+(* futex word vs wait_slow / wait_for_slow: fetch_add(acquire) and the acquire reload *)
+Theorem c08_publication_wait : forall sch,
+  RA.final (RA.run (RA.init (mp_xchg (order_of sites_set_value 0) (order_of sites_wait_slow 1))) sch) = true ->
+  mp_bad (RA.result (RA.run (RA.init (mp_xchg (order_of sites_set_value 0) (order_of sites_wait_slow 1))) sch)) = false.
+Proof. apply mp_xchg_all_executions. vm_compute. reflexivity. Qed.
+Print Assumptions c08_publication_wait.
+
+(* list head: seal() exchange (acq_rel)  vs  on_finish's acquire load that finds SEALED and runs the callback inline *)
+Theorem c08_publication_on_finish : forall sch,
+  RA.final (RA.run (RA.init (mp_xchg (order_of sites_seal 0) (order_of sites_on_finish 0))) sch) = true ->
+  mp_bad (RA.result (RA.run (RA.init (mp_xchg (order_of sites_seal 0) (order_of sites_on_finish 0))) sch)) = false.
+Proof. apply mp_xchg_all_executions. vm_compute. reflexivity. Qed.
+Print Assumptions c08_publication_on_finish.
+
+(* callback node: on_finish's CAS (release part) publishes the node the setter detaches with its acquiring seal() *)
+Theorem c08_publication_callback_node : forall sch,
+  RA.final (RA.run (RA.init (mp_cas_publish (order_of sites_on_finish 1) (order_of sites_seal 0))) sch) = true ->
+  mp_cas_bad (RA.result (RA.run (RA.init (mp_cas_publish (order_of sites_on_finish 1) (order_of sites_seal 0))) sch)) = false.
+Proof. apply mp_cas_publish_all_executions. vm_compute. reflexivity. Qed.
+Print Assumptions c08_publication_callback_node.
+
+(* what goes wrong when the release is dropped (the execution is printed by the check's search) *)
+Theorem c08_publication_relaxed_refuted : mp_xchg_safe Relaxed Acquire = false /\ mp_xchg_safe Release Relaxed = false.
+Proof. split; vm_compute; reflexivity. Qed.
